@@ -69,13 +69,26 @@ class IgnoreDirectiveParser:
         path_str = str(file_path)
         with suppress(KeyError):
             return self._ignore_cache[path_str]
-        try:
-            check_path = str(file_path.relative_to(self.project_root))
-        except ValueError:
-            check_path = path_str
+        check_path = self._path_inside_project(file_path)
         result = any(matches_pattern(check_path, p) for p in self.repo_patterns)
         self._ignore_cache[path_str] = result
         return result
+
+    def _path_inside_project(self, file_path: Path) -> str:
+        """Return the path patterns are matched against: relative to the project root.
+
+        Relative and non-normalised spellings (``inner/x.py`` from a sub-directory,
+        ``./src/../src/x.py``) are resolved first so that every spelling of a file is
+        matched the same way; paths outside the project are used as given.
+        """
+        candidates = [file_path.resolve()]
+        if ".." not in file_path.parts:
+            candidates.insert(0, file_path)
+        for candidate in candidates:
+            for root in (self.project_root, self.project_root.resolve()):
+                with suppress(ValueError):
+                    return str(candidate.relative_to(root))
+        return str(file_path)
 
     def has_file_ignore(self, file_path: Path, rule_id: str | None = None) -> bool:
         """Check for file-level ignore directive in first 10 lines."""
